@@ -443,6 +443,7 @@ fn decode(t: &mut Tape) -> Case {
     let big_endian = t.chance(1, 2);
     let havoc_seed = t.u64();
     p.index_gaps_permille = 200;
+    p.nop_placeholders = true;
     let g = gen_fn(t, &p);
     let mut f = g.spec;
     // gen_fn repairs reachability by adding edges and wraps the last block around to block 0, which
